@@ -410,8 +410,14 @@ func (ipcp *IPCPStateMachine) processConfigureOptions(opts []LCPOption) (ack, na
 				continue
 			}
 
-			// Peer requests specific IP - check if it matches our assignment
-			if ipcp.config.PeerIP != nil && !requestedIP.Equal(ipcp.config.PeerIP) {
+			// Peer requests specific IP - without an assignment there is nothing to acknowledge
+			if ipcp.config.PeerIP == nil {
+				reject = append(reject, opt)
+				continue
+			}
+
+			// Check if it matches our assignment
+			if !requestedIP.Equal(ipcp.config.PeerIP) {
 				// NAK with our assigned IP
 				nakOpt := LCPOption{
 					Type: IPCPOptIPAddress,
